@@ -436,7 +436,7 @@ add("F1", "keep", FACT, "_monotonic_factorization", "        if x != x:\n       
 PRE = "GroupBy._preprocess_arguments"
 add("A1", "break", CORE, PRE, "        if input_len != len(self):\n            raise ValueError(f'Length of the input values ({input_len}) does not match length of group keys ({len(self)})')\n", "", name="A1 length comparison with the keys deleted", expect_func="*")
 add("A1", "break", CORE, PRE, "            if not self._key_index.equals(common_index):\n                raise ValueError('Pandas index of inputs does not match that of the group keys')\n", "            pass\n", name="A1 index comparison with the keys deleted", expect_func="*")
-add("A1", "break", CORE, PRE, "        if mask is not None and pd.api.types.is_bool_dtype(mask):\n            to_check = [*to_check, mask]\n", "", name="A1 boolean mask no longer validated", expect_func="*")
+add("A1", "break", CORE, PRE, "        if mask_is_boolean:\n            to_check = [*to_check, mask]\n", "", name="A1 boolean mask no longer validated", expect_func="*")
 add("A1", "break", CORE, PRE, "        common_index = _validate_input_lengths_and_indexes(to_check)\n", "        common_index = _validate_input_lengths_and_indexes(value_list)\n", name="A1 validation runs on the values only", expect_func="*")
 add("A1", "break", CORE, "_validate_input_lengths_and_indexes", "    if len(lengths) > 1:\n        raise ValueError(f'found more than one unique length: {lengths}')\n", "", name="A1 mutual length check deleted", expect_func="*")
 add("A1", "break", CORE, "_validate_input_lengths_and_indexes", "        if not left.equals(right):\n            raise ValueError('Found different indices in the array_inputs')\n", "        pass\n", name="A1 mutual index check deleted", expect_func="*")
@@ -527,3 +527,6 @@ add("P18", "break", NANOPS, "reduce_1d", "        chunks = parallel_map(lambda a
 add("P19", "break", UTIL, "pretty_cut", "    sort_key = np.argsort(numeric_bins)\n    bins = bins[sort_key]\n    numeric_bins = numeric_bins[sort_key]\n", "    bins = np.sort(bins)\n", name="P19 labels sorted, searched edges left in the caller's order")
 add("P19", "keep", UTIL, "pretty_cut", "    sort_key = np.argsort(numeric_bins)\n    bins = bins[sort_key]\n    numeric_bins = numeric_bins[sort_key]\n", "    order = numeric_bins.argsort()\n    bins = bins[order]\n    numeric_bins = numeric_bins[order]\n", name="P19 argsort as a method, key renamed")
 add("O2", "break", CORE, "GroupBy.size", "        return self._apply_gb_reduction(", "        if mask is None and (not transform) and (not margins) and (not observed_only):\n            return pd.Series(self.ikey_count[self._labels_argsort], self.result_index[self._labels_argsort], copy=False)\n        return self._apply_gb_reduction(", name="O2 size hands out a Series over the cached counts")
+add("A1", "break", CORE, PRE, "        to_check = list(value_list)\n", "", also=((CORE, PRE, "        mask_is_boolean = mask is not None", "        to_check = value_list\n        mask_is_boolean = mask is not None"),), name="A1 validation runs after the timestamp conversion dropped the index", expect_func="*")
+add("A1", "break", CORE, PRE, " or (isinstance(mask, pl.Series) and mask.dtype == pl.Boolean)", "", name="A1 polars boolean masks not recognised as boolean", expect_func="*")
+add("A1", "keep", CORE, PRE, "        to_check = list(value_list)\n", "        to_check = [*value_list]\n", name="A1 copy of the value list taken with a star expression")
